@@ -168,9 +168,15 @@ J_parseany(e) ==
 WellFormedExcADU(p) ==
     Len(p) = 9 /\ MBAPProto(p) = 0 /\ MBAPLen(p) = 3 /\ p[8] >= 128
 
+\* "rejected with an error that encodes to a valid exception reply": a reply to THIS request - its transaction id,
+\* unit id and function code with the high bit set
 DispatcherAgrees(e) ==
     \/ e.disp \in {"ok", "na"}
-    \/ e.disp = "errtyped" /\ WellFormedExcADU(e.dispPkt)
+    \/ /\ e.disp = "errtyped" /\ WellFormedExcADU(e.dispPkt)
+       \* (for the functions the dispatcher knows; with allowUnSupportedFunctionCodes the caller has asked to be handed
+       \* function codes the dispatcher cannot address - its "unknown function" error carries no addressing)
+       /\ (e.frame[8] \in SupportedFC =>
+              MBAPTid(e.dispPkt) = MBAPTid(e.frame) /\ e.dispPkt[7] = e.frame[7] /\ e.dispPkt[8] = e.frame[8] + 128)
 
 J_classify(e) ==
     LET cl == Classify(e.frame) IN
